@@ -645,6 +645,12 @@ func statusFromError(id uint32, err error) *sshFxpStatusPacket {
 		ret.StatusError.Code = sshFxNoSuchFile
 		return ret
 	}
+	if os.IsPermission(err) {
+		// os.ErrPermission, and EACCES/EPERM also inside *os.LinkError and *os.SyscallError,
+		// which translateSyscallError below does not look into.
+		ret.StatusError.Code = sshFxPermissionDenied
+		return ret
+	}
 	if code, ok := translateSyscallError(err); ok {
 		ret.StatusError.Code = code
 		return ret
